@@ -95,18 +95,27 @@ func (e *integEngine) checkC19() {
 	sunk := e.sink.Writes
 	switch e.w.Format {
 	case "raw":
-		var got []byte
+		// every task's bytes arrive unchanged and in order (writes of different tasks may interleave
+		// in any way: a writer can be preempted between taking a chunk and passing it on)
+		got := map[string][]byte{}
 		for _, w := range sunk {
-			got = append(got, w.Data...)
+			got[w.By] = append(got[w.By], w.Data...)
 		}
-		if !bytes.Equal(got, global) {
-			c.Violate("C19", "raw-not-verbatim", "raw output: the sink received %d bytes %s, the tasks wrote %d bytes %s in delivery order", len(got), quoteShort(got), len(global), quoteShort(global))
+		for _, t := range e.w.Tasks {
+			if !bytes.Equal(got[t.Name], perTask[t.Name]) {
+				c.Violate("C19", "raw-not-verbatim", "raw output: from task %s the sink received %d bytes %s, the task wrote %d bytes %s", t.Name, len(got[t.Name]), quoteShort(got[t.Name]), len(perTask[t.Name]), quoteShort(perTask[t.Name]))
+			}
+		}
+		for who := range got {
+			if e.w.Task(who) == nil && len(got[who]) > 0 {
+				c.Violate("C19", "raw-not-verbatim", "raw output: %d bytes written by %q, which is not a task: %s", len(got[who]), who, quoteShort(got[who]))
+			}
 		}
 		c.Counters["c19_raw_bytes"] += len(global)
 	case "prefixed":
 		payload := map[string][]byte{}
 		for _, w := range sunk {
-			writer := e.taskOfExecKey(w.By)
+			writer := w.By // the execution (= task, in these worlds) whose goroutine wrote the line
 			line := w.Data
 			if !bytes.HasSuffix(line, []byte("\r\n")) {
 				c.Violate("C19", "prefixed-not-whole-line", "prefixed output: a write to the sink is not one whole line: %s", quoteShort(line))
@@ -261,6 +270,9 @@ func GenOutputWorld(ch *Choices, thorough bool) *IntegWorld {
 		t := &TaskSpec{Name: nm, NCmd: 1}
 		id := execID(nm, "cmd", 0, "")
 		pl := &ExecPlan{}
+		if ch.Bool(1, 2, "takes-time") {
+			pl.DurMS = ch.Choose(400, "dur") // long enough for the cockpit's spinner to tick in between
+		}
 		// outcome kinds for the format-independence part
 		switch ch.Weighted([]int{6, 2, 1, 1}, "outcome") {
 		case 1:
